@@ -99,7 +99,10 @@ def Item.words : Item → List Str
   | .channelGroup n rest => kChannelGroup :: toDec n :: rest
   | .other ws => ws
 
-def keywords : List Str := [kDescription, kIp, kMtu, kVrf, kSwitchport, kChannelGroup, kInterface]
+def keywords : List Str := [kDescription, kMtu, kVrf, kSwitchport, kChannelGroup, kInterface]
+
+/-- second words that make an `ip …` line one of the described commands -/
+def ipSecond : List Str := [kAddress, kMtu, kVrf, kIp]
 
 /-- side conditions on the values of an item -/
 def Item.Valid : Item → Prop
@@ -113,7 +116,8 @@ def Item.Valid : Item → Prop
   | .mode m => m = kAccess ∨ m = kTrunk
   | .allowed v => Word v
   | .channelGroup _ rest => ∀ w ∈ rest, Word w
-  | .other ws => (∀ w ∈ ws, Word w) ∧ ∃ w rest, ws = w :: rest ∧ w ∉ keywords ∧ kShut.isPrefixOf w = false
+  | .other ws => (∀ w ∈ ws, Word w) ∧ ∃ w rest, ws = w :: rest ∧ w ∉ keywords ∧ kShut.isPrefixOf w = false ∧
+      (w = kIp → ∃ w2 r2, rest = w2 :: r2 ∧ w2 ∉ ipSecond)
   | _ => True
 
 def ind1 : Str := [' ']
@@ -253,14 +257,78 @@ theorem pVrf_key (s : Str) (v : Str) (h : pVrf s = some v) :
       rw [hl, List.dropWhile_cons_of_neg (by simpa using ht)] at h
       split at h <;> simp_all
 
-/-- the first word of an unrelated line is no keyword -/
+theorem wordsOf_get1 (s : Str) (t1 t2 : Tok) (ts : List Tok) (h : (lex s).2 = t1 :: t2 :: ts) :
+    (wordsOf s)[1]? = some t2.1 := by simp [wordsOf, h]
+
+theorem pIpMtu_key2 (s : Str) (v : Str) (h : pIpMtu s = some v) :
+    ∃ w2, (wordsOf s)[1]? = some w2 ∧ w2 ∈ ipSecond := by
+  unfold pIpMtu at h; split at h
+  · rename_i heq; refine ⟨_, wordsOf_get1 s _ _ _ heq, ?_⟩; simp_all [ipSecond]
+  · cases h
+theorem addrWords_key2 (s : Str) (v : Str × Str) (h : addrWords s = some v) :
+    ∃ w2, (wordsOf s)[1]? = some w2 ∧ w2 ∈ ipSecond := by
+  unfold addrWords at h; simp only at h; split at h; · cases h
+  split at h
+  · rename_i heq; refine ⟨_, wordsOf_get1 s _ _ _ heq, ?_⟩; simp_all [ipSecond]
+  · cases h
+theorem pAddrKw_key2 (kw : Str) (s : Str) (v : Str) (h : pAddrKw kw s = some v) :
+    ∃ w2, (wordsOf s)[1]? = some w2 ∧ w2 ∈ ipSecond := by
+  unfold pAddrKw at h; simp only at h; split at h; · cases h
+  split at h
+  · rename_i heq; refine ⟨_, wordsOf_get1 s _ _ _ heq, ?_⟩; simp_all [ipSecond]
+  · cases h
+theorem pSecondary_key2 (s : Str) (v : Str × Str) (h : pSecondary s = some v) :
+    ∃ w2, (wordsOf s)[1]? = some w2 ∧ w2 ∈ ipSecond := by
+  unfold pSecondary at h; split at h
+  · rename_i heq; refine ⟨_, wordsOf_get1 s _ _ _ heq, ?_⟩; simp_all [ipSecond]
+  · cases h
+theorem pVrf_key2 (s : Str) (v : Str) (h : pVrf s = some v) (hip : ∃ w, head1 (lex s).2 = some w ∧ w = kIp) :
+    ∃ w2, (wordsOf s)[1]? = some w2 ∧ w2 ∈ ipSecond := by
+  unfold pVrf at h
+  obtain ⟨w, hw, rfl⟩ := hip
+  cases hl : (lex s).2 with
+  | nil => simp [hl, head1] at hw
+  | cons t ts =>
+    have ht : t.1 = kIp := by simpa [hl, head1] using hw
+    rw [hl, List.dropWhile_cons_of_pos (by simpa using ht)] at h
+    cases ts with
+    | nil => simp at h
+    | cons t2 ts2 =>
+      refine ⟨t2.1, wordsOf_get1 s t t2 ts2 hl, ?_⟩
+      by_cases h2 : t2.1 = kIp
+      · simp [ipSecond, h2]
+      · rw [List.dropWhile_cons_of_neg (by simpa using h2)] at h
+        split at h <;> simp_all [ipSecond]
+
+/-- the first word of an unrelated line is no keyword (an `ip …` line: no described second word) -/
 theorem other_head {ws : List Str} (h : (Item.other ws).Valid) (w : Str) (hw : ws.head? = some w) :
-    w ≠ kDescription ∧ w ≠ kIp ∧ w ≠ kMtu ∧ w ≠ kVrf ∧ w ≠ kSwitchport ∧ w ≠ kChannelGroup ∧
-    kShut.isPrefixOf w = false := by
-  obtain ⟨_, w', rest, rfl, hk, hs⟩ := h
+    w ≠ kDescription ∧ (w = kIp → ∃ w2, ws[1]? = some w2 ∧ w2 ∉ ipSecond) ∧ w ≠ kMtu ∧ w ≠ kVrf ∧
+    w ≠ kSwitchport ∧ w ≠ kChannelGroup ∧ kShut.isPrefixOf w = false := by
+  obtain ⟨_, w', rest, rfl, hk, hs, hip⟩ := h
   simp at hw; subst hw
   simp [keywords] at hk
-  exact ⟨hk.1, hk.2.1, hk.2.2.1, hk.2.2.2.1, hk.2.2.2.2.1, hk.2.2.2.2.2.1, hs⟩
+  refine ⟨hk.1, ?_, hk.2.1, hk.2.2.1, hk.2.2.2.1, hk.2.2.2.2.1, hs⟩
+  intro e
+  obtain ⟨w2, r2, rfl, h2⟩ := hip e
+  exact ⟨w2, by simp, h2⟩
+
+/-- an unrelated line is not matched by a pattern that needs the first word `ip` and a second
+word among `address` / `mtu` / `vrf` / `ip` -/
+theorem other_none_ip {α : Type} {p : Str → Option α}
+    (hkey : ∀ s v, p s = some v → ∃ w, head1 (lex s).2 = some w ∧ w = kIp)
+    (hkey2 : ∀ s v, p s = some v → ∃ w2, (wordsOf s)[1]? = some w2 ∧ w2 ∈ ipSecond)
+    (ws : List Str) (h : (Item.other ws).Valid) : p (Item.other ws).render = none := by
+  cases hp : p (Item.other ws).render with
+  | none => rfl
+  | some v =>
+    obtain ⟨w, hw, hk⟩ := hkey _ _ hp
+    rw [lex_render _ h, head1_toksOf] at hw
+    obtain ⟨w2', hw2', hn⟩ := (other_head h w hw).2.1 hk
+    obtain ⟨w2, hw2, hin⟩ := hkey2 _ _ hp
+    rw [wordsOf_render _ h] at hw2
+    simp only [Item.words] at hw2
+    rw [hw2'] at hw2; cases hw2
+    exact absurd hin hn
 
 theorem allDigits_toDec (n : Nat) : allDigits (toDec n) = true := by
   have h1 := Range.toDec_ne_nil n
@@ -340,7 +408,7 @@ theorem pMtu_render (it : Item) (h : it.Valid) : pMtu it.render = specMtu it := 
 theorem pIpMtu_render (it : Item) (h : it.Valid) : pIpMtu it.render = specIpMtu it := by
   cases it
   case channelGroup n rest => exact none_of_key pIpMtu_key _ h (by khead)
-  case other ws => exact none_of_key pIpMtu_key _ h (fun w hw => (other_head h w hw).2.1)
+  case other ws => exact other_none_ip pIpMtu_key pIpMtu_key2 ws h
   case descr ws => exact none_of_key pIpMtu_key _ h (by khead)
   all_goals (unfold pIpMtu; rw [lex_render _ h]; simp (config := {decide := true}) [Item.words, toksOf, specIpMtu, allDigits_toDec])
 
@@ -357,7 +425,23 @@ theorem pShut_render (it : Item) (h : it.Valid) : pShut it.render = specShut it 
 theorem pVrf_render (it : Item) (h : it.Valid) : pVrf it.render = specVrf it := by
   cases it
   case channelGroup n rest => exact none_of_key pVrf_key _ h (by khead)
-  case other ws => exact none_of_key pVrf_key _ h (fun w hw => by simp [(other_head h w hw).2.1, (other_head h w hw).2.2.2.1])
+  case other ws =>
+    cases hp : pVrf (Item.other ws).render with
+    | none => simp [specVrf]
+    | some v =>
+      exfalso
+      obtain ⟨w, hw, hk⟩ := pVrf_key _ _ hp
+      have hw' := hw
+      rw [lex_render _ h, head1_toksOf] at hw'
+      have oh := other_head h w hw'
+      rcases hk with hk | hk
+      · obtain ⟨w2', hw2', hn⟩ := oh.2.1 hk
+        obtain ⟨w2, hw2, hin⟩ := pVrf_key2 _ _ hp ⟨w, hw, hk⟩
+        rw [wordsOf_render _ h] at hw2
+        simp only [Item.words] at hw2
+        rw [hw2'] at hw2; cases hw2
+        exact hn hin
+      · exact oh.2.2.2.1 hk
   case descr ws => exact none_of_key pVrf_key _ h (by khead)
   case shutdown w =>
     unfold pVrf; rw [lex_render _ h]
@@ -368,7 +452,7 @@ theorem addrWords_render (it : Item) (h : it.Valid) :
     addrWords it.render = (match it with | .addr a m => some (a, m) | _ => none) := by
   cases it
   case channelGroup n rest => exact none_of_key addrWords_key _ h (by khead)
-  case other ws => exact none_of_key addrWords_key _ h (fun w hw => (other_head h w hw).2.1)
+  case other ws => exact other_none_ip addrWords_key addrWords_key2 ws h
   case descr ws => exact none_of_key addrWords_key _ h (by khead)
   all_goals (unfold addrWords; rw [lex_render _ h]; simp (config := {decide := true}) [Item.words, toksOf, ind1])
 
@@ -390,14 +474,14 @@ theorem pAddrObj_render (it : Item) (h : it.Valid) : pAddrObj it.render = specAd
 theorem pAddrKw_render (kw : Str) (it : Item) (h : it.Valid) : pAddrKw kw it.render = specAddrKw kw it := by
   cases it
   case channelGroup n rest => exact none_of_key (pAddrKw_key kw) _ h (by khead)
-  case other ws => exact none_of_key (pAddrKw_key kw) _ h (fun w hw => (other_head h w hw).2.1)
+  case other ws => exact other_none_ip (pAddrKw_key kw) (pAddrKw_key2 kw) ws h
   case descr ws => exact none_of_key (pAddrKw_key kw) _ h (by khead)
   all_goals (unfold pAddrKw; rw [lex_render _ h]; simp (config := {decide := true}) [Item.words, toksOf, specAddrKw, ind1])
 
 theorem pSecondary_render (it : Item) (h : it.Valid) : pSecondary it.render = specSecondary it := by
   cases it
   case channelGroup n rest => exact none_of_key pSecondary_key _ h (by khead)
-  case other ws => exact none_of_key pSecondary_key _ h (fun w hw => (other_head h w hw).2.1)
+  case other ws => exact other_none_ip pSecondary_key pSecondary_key2 ws h
   case descr ws => exact none_of_key pSecondary_key _ h (by khead)
   all_goals (unfold pSecondary; rw [lex_render _ h]; simp (config := {decide := true}) [Item.words, toksOf, specSecondary])
 
